@@ -158,6 +158,12 @@ impl MqttState {
         }
         self.outgoing_rel.clear();
 
+        // a publish parked on a packet id collision was accepted but never sent:
+        // hand it back last, it is the newest
+        if let Some(publish) = self.collision.take() {
+            pending.push(Request::Publish(publish));
+        }
+
         // remove packed ids of incoming qos2 publishes
         self.incoming_pub.clear();
 
